@@ -157,7 +157,7 @@ def impl_queue(case):
                         group.append(mod)
                     j += 1
                 if group:
-                    machine.remove_model(group if len(group) > 1 else group[0])
+                    machine.remove_model(group)         # list form, also for a single model
                 i = j
             else:
                 world.cur_pos, world.cur_k = mypos, i
@@ -267,14 +267,14 @@ def extra_checks(tier, seed):
     (all checks of a transition evaluated, gathered stage lists) cannot show (C09's envelope)."""
     import c09
     import framework as F
-    n = 500 if tier == 'quick' else 8000
-    cases = []
+    n = 1200 if tier == 'quick' else 12000
+    cases = handcrafted_async_removals()
     for i in range(n):
         rng = random.Random('C05a-%d-%d' % (seed, i))
         c = c09.gen_queue(rng)
         c['acls'] = ['AsyncMachine', 'HierarchicalAsyncMachine', 'AsyncGraphMachine', 'HierarchicalAsyncGraphMachine'][i % 4]
-        if i % 2 == 0:
-            c['batch_removals'] = 1     # consecutive removals of one callback become one remove_model([...]) call
+        if i % 2 == 0 or c.get('queued') == 2:
+            c['batch_removals'] = 1     # removals of one callback become one remove_model([...]) call (list form)
         if len(c['models']) == 1 and i % 3 != 0:
             c['self_model'] = 1         # the machine is its own model (model='self')
         cases.append(c)
@@ -307,6 +307,29 @@ def extra_checks(tier, seed):
                       impl_obs=i, theorem='corr_C05 (Queue.drain = the asyncio classes\' queued processing)')),
                 hsm_queue_stream(tier, seed), hsm_reent_stream(tier, seed)]
     return [unq, ('async_queues', True, detail, {}), hsm_queue_stream(tier, seed), hsm_reent_stream(tier, seed)]
+
+
+def handcrafted_async_removals():
+    """run first in the asyncio queue stream: a callback of the event in progress defers two further events of its own
+    model and then removes that model (list form) - on the four asyncio classes, one or two models, queued=True and
+    queued='model' (only the removed model has events, so the shared-queue model predicts the per-model queues too)"""
+    def sd(enter=()):
+        return dict(enter=list(enter), exit=[], final=False, ignore=None)
+
+    def tr(src, dst, after=()):
+        return dict(src=src, dst=dst, prepare=[], conds=[], before=[], after=list(after))
+    out = []
+    for acls in ['AsyncMachine', 'HierarchicalAsyncMachine', 'AsyncGraphMachine', 'HierarchicalAsyncGraphMachine']:
+        for nm in (1, 2):
+            for q in (1, 2):
+                m = dict(states=[[0, sd()], [1, sd()], [2, sd([60])], [3, sd([61])]],
+                         events=[[0, [tr(0, 1, [50])]], [1, [tr(st, 2) for st in range(4)]], [2, [tr(st, 3) for st in range(4)]]],
+                         prepare_event=[], before_sc=[], after_sc=[], finalize=[900], on_exception=[], on_final=[],
+                         ignore=False, send=False)
+                env = dict(default=True, bypos={}, bycb={50: (True, None, [[0, 0, 1], [0, 0, 2], [1, 0]])})
+                out.append(dict(machine=m, env=env, model=0, history=[(0, 0, 100)] + ([(1, 2, 101)] if nm > 1 else []),
+                                models=[(k, 0) for k in range(nm)], queued=q, sub='queue', acls=acls, batch_removals=1))
+    return out
 
 
 # ------------------------------------------------------------------ queued HIERARCHICAL machines
